@@ -115,7 +115,7 @@ class Walk:
                 except NoEval:
                     pass
             if 1 in args:
-                return self.run_at(nm, args, n, depth + 1)
+                return self.run_at(nm, args, env.get(('arrow', ('param', 0), 'nitems'), n), depth + 1)
         return None
 
     def run_at(self, fname, args, n, depth):
@@ -312,6 +312,34 @@ def check_capacity(P, ctx):
             except NoEval:
                 ok = False
     ctx.check(ok, rule, 'Array_Reserve_More', site(fn), 'when the count exceeds the slot count, the slot count becomes at least the count and the store is reallocated to step × slots bytes')
+    # the element size of an Array changes only while it has no slots: a store whose slot count was measured in the old step must not be reused
+    fn = P.fn(P.slot('Array', 'Assign', 'assign'))
+    g = P.cfg(fn)
+    ctx.fn(fn)
+    N = util.Norm(P, fn, inline=False)
+    ts = [n for n in g.live() if n['kind'] == 'stmt' and n['expr'] is not None and N.canon(n['expr'])[0] == 'assign' and N.canon(n['expr'])[2] == ('arrow', ('param', 0), 'tsize')]
+    ok = len(ts) == 1
+    if ok:
+        def zeroes_slots(fname, depth=1):
+            f2 = P.fn(fname)
+            g2 = P.cfg(f2)
+            N2 = util.Norm(P, f2, inline=False)
+            z = [x for x in g2.live() if x['kind'] == 'stmt' and x['expr'] is not None and N2.canon(x['expr']) == ('assign', '=', ('arrow', ('param', 0), 'nslots'), ('int', 0))]
+            return bool(z) and g2.must_pass(g2.exit, [x['id'] for x in z])
+        zero_nodes = [x for x in g.live() if x['kind'] == 'stmt' and x['expr'] is not None and N.canon(x['expr']) == ('assign', '=', ('arrow', ('param', 0), 'nslots'), ('int', 0))]
+        for x in g.live():
+            if x['expr'] is None:
+                continue
+            for c in ir.calls(x['expr']):
+                nm = ir.callee_name(c)
+                if nm in P.functions and P.functions[nm]['unit'] == fn['unit'] and c[2] and N.canon(c[2][0]) == ('param', 0) and zeroes_slots(nm):
+                    zero_nodes.append(x)
+        ok = bool(zero_nodes) and g.must_pass(ts[0]['id'], [x['id'] for x in zero_nodes])
+        # no non-zero slot count is established between the reset and the retype
+        if ok:
+            setters = [x for x in g.live() if x['kind'] == 'stmt' and x['expr'] is not None and N.canon(x['expr'])[0] == 'assign' and N.canon(x['expr'])[2] == ('arrow', ('param', 0), 'nslots') and x not in zero_nodes]
+            ok = all(ts[0]['id'] not in g.reach_from(x['id']) or g.must_pass(x['id'], [ts[0]['id']]) for x in setters)
+    ctx.check(ok, rule, 'Array_Assign:retype-on-empty-store', site(fn), 'the element size is changed only after the slot count was reset to 0 (by the clear routine or directly): capacity counted in the old element step is never reused for wider elements')
     # Tuple: realloc sizes cover the items written plus the sentinel
     W = poly.Poly.const(8)
     nn = poly.Poly.atom('nitems')
@@ -337,7 +365,7 @@ def check_capacity(P, ctx):
             ok = len(st) == 1 and st[0][1] == last and g.must_pass(st[0][0]['id'], [re[0][0]['id']])
             detail.append('sentinel at %s' % [repr(x[1]) for x in st])
         ctx.check(ok, rule, fname, site(fn), 'the item array is reallocated to %r pointers and the Terminal sentinel lands in its last slot' % want, detail)
-    ctx.floor(rule, 9)
+    ctx.floor(rule, 10)
 
 
 def check_list_links(P, ctx):
@@ -453,7 +481,11 @@ def check_rem_first(P, ctx):
                     if len(lp['inits']) == 1 and util.const_int(lp['inits'][0][1]['rhs']) == 0 and len(lp['writes']) == 1 and lp['writes'][0][1]['op'] == '++':
                         okl = True
                 ok = ok and okl
-        ctx.check(ok, rule, T, site(fn), 'rem scans from the first element in order and stops at the first element equal to its argument')
+        # every removal inside rem happens on the equality-hit edge of that scan (no other way to pick the victim)
+        removers = [n for n in g.live() if n['expr'] is not None and any(ir.callee_name(c) in ('Array_Pop_At', 'Tuple_Pop_At', 'List_Unlink', 'List_Free', 'List_Remove_Item', 'memmove') for c in ir.calls(n['expr']))]
+        if ok and removers:
+            ok = all(g.must_pass(r['id'], through_edges=[(hits[0]['id'], True)]) for r in removers)
+        ctx.check(ok and bool(removers), rule, T, site(fn), 'rem scans from the first element in order, removes only the element on which the equality test hit, and stops there')
     ctx.floor(rule, 3)
 
 
